@@ -901,6 +901,12 @@ func (a *analyzer) analyzeDotimes(node *lisp.LVal, scope *Scope, currentPkg stri
 	for i := 2; i < len(node.Cells); i++ {
 		a.analyzeExpr(node.Cells[i], dotimesScope, currentPkg)
 	}
+
+	// The optional result form is evaluated after the loop, in the scope
+	// that holds the loop variable.
+	if len(bindingList.Cells) > 2 {
+		a.analyzeExpr(bindingList.Cells[2], dotimesScope, currentPkg)
+	}
 }
 
 func (a *analyzer) analyzeTest(node *lisp.LVal, scope *Scope, currentPkg string) {
